@@ -129,6 +129,7 @@ type sev =
 | Joined of role
 | MonMapRefused
 | MonMapRet of bool
+| StartRefused of role
 
 type spc =
 | SOff
